@@ -18,6 +18,18 @@ from pyvc.specs import REG, ghost
 REG.ghosts['runs'] = 'map[int]'          # per-call monitor: how often a system ran in this execute_systems call
 REG.ghosts['last'] = 'ref?:System'       # per-call monitor: the system that ran last
 
+# which properties own the frame ("nothing else written") obligations of each field / container store
+REG.frame_tags.update({
+    'start': ['C02'], 'end': ['C02'], 'frequency': ['C02'], 'priority': ['C01', 'C05'],
+    'id': ['C01', 'C04', 'C05'], 'timestep': ['C02', 'C06'], '_status': ['C06'],
+    'dict[str,ref:System]': ['C01', 'C05'], 'list[ref:System]': ['C01', 'C05'],
+    'dict[str,ref:Agent]': ['C04', 'C13', 'C03'], 'dict[cls,ref:Component]': ['C03', 'C04', 'C20'],
+    'dict[cls,list[ref:Component]]': ['C03', 'C04'], 'list[ref:Component]': ['C03', 'C04'],
+    'tag': ['C13', 'C20'], '_tag': ['C20'], '_components': ['C20'], 'components': ['C03', 'C04', 'C20'],
+    'agents': ['C04'], 'x': ['C08'], 'y': ['C08'], 'z': ['C08'],
+    'systems': ['C01', 'C03'], 'execution_queue': ['C01'], 'component_pools': ['C03'],
+})
+
 # ------------------------------------------------------------------------------------------------ C01: queue
 def before(a, b, S):
     """a is scheduled before b: higher priority, or equal priority and registered earlier."""
@@ -283,8 +295,12 @@ def model_exec_requires(self):
 def model_exec_post(self, n, old):
     t0 = old.self.systems.timestep
     return (self.systems.timestep >= t0 and self.systems.timestep <= t0 + n
-            and implies(running(self), self.systems.timestep == t0 + n)
-            and implies(not running(old.self), self.systems.timestep == t0))
+            and implies(running(self), self.systems.timestep == t0 + n))
+
+
+def model_exec_post_complete(self, n, old):
+    """C06: a completed model is left untouched by any advance request."""
+    return implies(not running(old.self), self.systems.timestep == old.self.systems.timestep and not running(self))
 
 
 def model_exec_bad_value(self, n, old):
@@ -303,13 +319,13 @@ def model_exec_inv(self, n, old, _):
 contract('Core.Model.execute',
          params={'self': 'ref:Model', 'n': 'int'},
          requires=[model_exec_requires],
-         ensures={'C02': [model_exec_post]},
+         ensures={'C02': [model_exec_post], 'C06': [model_exec_post_complete]},
          raises={'ValueError': dict(when=model_exec_bad_value)},
          modifies=['self.systems.timestep'] + USER_CODE_MODIFIES + SCHED_GHOSTS,
-         loops={0: dict(invariant=[(model_exec_inv, ['C02'])], index='_',
+         loops={0: dict(invariant=[(model_exec_inv, ['C02', 'C06'])], index='_',
                         modifies=['self.systems.timestep'] + USER_CODE_MODIFIES + SCHED_GHOSTS)},
          cases=[dict(name='int', params={'n': 'int'})],
-         props=['C02'])
+         props=['C02', 'C06'])
 
 
 def model_exec_type_requires(self, n):
@@ -324,3 +340,53 @@ contract('Core.Model.execute', variant='nonint',
          modifies=[],
          notes='n that is not an instance of int (float, str, None, object): must raise TypeError, nothing changed',
          props=['C02'])
+
+
+# ------------------------------------------------------------------------------------------------ Agent
+def has_all(a, ts):
+    """Agent a carries every component type of the template ts (empty template: True)."""
+    return all(ts[j] in a.components for j in range(len(ts)))
+
+
+def has_component_post(self, args, result):
+    return result == has_all(self, args)
+
+
+def has_component_inv(self, args, i):
+    return 0 <= i and i <= len(args) and all(args[j] in self.components for j in range(0, i))
+
+
+contract('Core.Agent.has_component',
+         params={'self': 'ref:Agent', '*args': 'list[cls]'}, returns='bool',
+         ensures={'C13': [has_component_post]},
+         loops={0: dict(invariant=[has_component_inv], index='i', modifies=[])},
+         pure=True, props=['C13'])
+
+
+def Env_rep(self):
+    """Every resident agent is stored under its own id."""
+    return all(self.agents[k].id == k for k in self.agents)
+
+
+def matches(a, ts, tag):
+    return has_all(a, ts) and (tag is None or a.tag == tag)
+
+
+def get_agents_post(self, args, tag, result, old):
+    A = self.agents
+    return (is_fresh(result, old)
+            and all(result[i].id in A and A[result[i].id] is result[i] and matches(result[i], args, tag)
+                    for i in range(len(result)))
+            and all(order_of(A, result[i].id) < order_of(A, result[j].id)
+                    for i in range(len(result)) for j in range(i + 1, len(result)))
+            and all(index_of(result, A[k]) < len(result) for k in A if matches(A[k], args, tag)))
+
+
+contract('Core.Environment.get_agents',
+         params={'self': 'ref:Environment', '*args': 'list[cls]', 'tag': 'int'}, returns='list[ref:Agent]',
+         requires=[Env_rep],
+         ensures={'C13': [get_agents_post]},
+         modifies=['new:list[ref:Agent]'],
+         locals={'matching_agents': 'list[ref:Agent]'},
+         cases=[dict(name='tag', params={'tag': 'int'}), dict(name='notag', params={'tag': 'none'})],
+         props=['C13'])
